@@ -43,8 +43,11 @@ AtMostTwo(t, s, o, i) ==
 
 NIn(t, s, o, i) == Len(t[1]) + s[1] + o[1] + i[1]
 NAll(t, s, o, i) == NIn(t, s, o, i) + Len(t[2]) + s[2] + o[2] + o[3] + i[2]
-\* without inputs the balance offset means nothing: one case only
+\* without inputs the balance offset means nothing: one case only; a request that cannot even be
+\* expressed (plain Orchard outputs after NU6.3) is enumerated with one offset as well
 Deltas(t, s, o, i, ds) == IF NIn(t, s, o, i) = 0 THEN {0} ELSE ds
+Expressible(r, o, i) == (o = ONone \/ r # "sap") /\ (i = INone \/ r = "nu63") /\ (o[2] = 0 \/ r # "nu63")
+DeltasIn(r, t, s, o, i, ds) == IF Expressible(r, o, i) THEN Deltas(t, s, o, i, ds) ELSE {0}
 \* the height of the regime: both in the thorough tier, else alternating with the size of the request
 Heights(t, s, o, i) == IF Wide THEN {0, 1} ELSE {NAll(t, s, o, i) % 2}
 
@@ -53,14 +56,14 @@ Shapes2 == {sh \in TShapes \X SShapes \X OShapes \X IShapes : AtMostTwo(sh[1], s
 \* S1: every shape with at most two pools, in every regime, exactly balanced / one zatoshi off
 S1 == UNION {UNION {{Mk("shape", r, h, "none", "after", Rules.std, sh[1], sh[2], sh[3], sh[4], "default", "default",
                         FALSE, "exact", d) :
-                        d \in Deltas(sh[1], sh[2], sh[3], sh[4], IF Wide THEN {0, 0 - 1, 1, 0 - 5000, 5000} ELSE {0, 0 - 1, 1}),
+                        d \in DeltasIn(r, sh[1], sh[2], sh[3], sh[4], IF Wide THEN {0, 0 - 1, 1, 0 - 5000, 5000} ELSE {0, 0 - 1, 1}),
                         h \in Heights(sh[1], sh[2], sh[3], sh[4])} :
                     sh \in Shapes2} : r \in Regimes}
 
 \* S2: padding configurations of the Orchard and Ironwood bundles, funded transparently or from the pools
 S2 == LET T2 == {TNone, << << "pkh" >>, << >> >>}
       IN  UNION {{Mk("padding", "nu63", NAll(t, SNone, o, i) % 2, "none", "after", Rules.std, t, SNone, o, i, op, ip, FALSE, "exact", d) :
-                    d \in Deltas(t, SNone, o, i, {0, 0 - 1}), op \in Paddings, ip \in Paddings} :
+                    d \in DeltasIn("nu63", t, SNone, o, i, {0, 0 - 1}), op \in Paddings, ip \in Paddings} :
                  <<t, o, i>> \in T2 \X OShapes \X IShapes}
           \cup UNION {{Mk("padding", "nu5", NAll(t, SNone, o, INone) % 2, "none", "after", Rules.std, t, SNone, o, INone, op, "default", FALSE, "exact", d) :
                     d \in Deltas(t, SNone, o, INone, {0, 0 - 1}), op \in Paddings} :
@@ -74,9 +77,10 @@ S3 == LET t == << << "pkh" >>, << "pkh" >> >>
 
 \* S4: other fee rules (ZIP 317 with non-standard parameters, a fixed fee)
 S4 == LET Sh == {sh \in Shapes2 : Cardinality({k \in 2..4 : sh[k] # (IF k = 2 THEN SNone ELSE IF k = 3 THEN ONone ELSE INone)}) <= 1}
-      IN  UNION {{Mk("rule", r, NAll(sh[1], sh[2], sh[3], sh[4]) % 2, "none", "after", rule, sh[1], sh[2], sh[3], sh[4],
-                     "default", "default", FALSE, "exact", d) :
-                    r \in {"nu5", "nu63"}, rule \in {Rules.alt, Rules.fix}, d \in Deltas(sh[1], sh[2], sh[3], sh[4], {0, 1})} :
+      IN  UNION {UNION {{Mk("rule", r, NAll(sh[1], sh[2], sh[3], sh[4]) % 2, "none", "after", rule, sh[1], sh[2], sh[3], sh[4],
+                            "default", "default", FALSE, "exact", d) :
+                            rule \in {Rules.alt, Rules.fix}, d \in DeltasIn(r, sh[1], sh[2], sh[3], sh[4], {0, 1})} :
+                        r \in {"nu5", "nu63"}} :
                  sh \in Sh}
 
 \* S5: anchors configured for every pool, whatever the request uses
